@@ -49,6 +49,23 @@ def step (d : D) (fs : List String) : D × String :=
       let d' := { h := h', dcs := dropChildren d.dcs evicted }
       (d', "ok " ++ showState d')
     | _, _, _ => (d, "bad-op")
+  | ["burst", items] =>
+    -- frames that arrive while the hub is busy are handled one after the other, in arrival order
+    let parsed := (items.splitOn ",").map fun it =>
+      match it.splitOn ":" with
+      | [n, dat] => match parseName n, hexToBytes dat with
+        | some n, some dat => some (n, dat)
+        | _, _ => none
+      | _ => none
+    if parsed.any Option.isNone then (d, "bad-op") else
+    let d' := parsed.foldl (fun (d : D) p =>
+      match p with
+      | some (n, dat) =>
+        let h' := Hub.step d.h (.inbound n dat 2)
+        let evicted := (h'.gone.drop d.h.gone.length).map (·.name)
+        { h := h', dcs := dropChildren d.dcs evicted }
+      | none => d) d
+    (d', "ok " ++ showState d')
   | ["drain", n, k] => match parseName n, k.toNat? with
     | some n, some k =>
       match Hub.findMember d.h n with
